@@ -387,7 +387,7 @@ pub fn eval_unify(payload: &str) -> String {
     format!("{head} polls={polls} classes=[{}] types=[{}]", cls.join("|"), types.join(";"))
 }
 
-fn gen_judgements(r: &mut Rng, nvars: usize, packed: bool, cyclic: bool) -> Vec<String> {
+pub fn gen_judgements(r: &mut Rng, nvars: usize, packed: bool, cyclic: bool) -> Vec<String> {
     let mut js = vec![];
     let n = 1 + r.below(nvars * 2);
     for _ in 0..n {
